@@ -441,20 +441,26 @@ package mcp
 //@ func startKeepalive$1 [C13]
 //@   ghostvar misses int = 0
 //@   on call session.Ping: misses = result == nil ? 0 : (errIs(result, jsonrpc2.ErrMethodNotFound) ? misses : misses + 1)
+//@   ghostvar sincePing bool = false
+//@   on call session.Ping: sincePing = true
+//@   on call ctx.Done: sincePing = false
 //@   track session.Ping as ping
 //@   track session.Close as closeSession
 //@   track Stop as tickerStop
 //@   modifies *
 //@   requires failureThreshold >= 1
 //@   assert at call session.Close: @closes-exactly-at-threshold misses == failureThreshold && calls(closeSession) == 0
+//@   assert at call session.Ping: @no-ping-after-unsupported calls(ping) == 0 || lastResult(ping, 0) == nil || !errIs(lastResult(ping, 0), jsonrpc2.ErrMethodNotFound)
 //@   assert at call context.WithTimeout: @ping-timeout-half-interval $1 == interval / 2
 //@   assert at call time.NewTicker: @ticks-every-interval $0 == interval
 //@   ensures @closed-at-most-once calls(closeSession) <= 1
 //@   ensures @closed-only-at-threshold calls(closeSession) == 1 ==> misses == failureThreshold
 //@   ensures @unsupported-ping-ends-silently calls(ping) >= 1 && lastResult(ping, 0) != nil && errIs(lastResult(ping, 0), jsonrpc2.ErrMethodNotFound) ==> calls(closeSession) == 0
 //@   ensures @ticker-stopped calls(tickerStop) == 1
+//@   ensures @a-failed-ping-is-counted-or-closes sincePing ==> calls(closeSession) == 1 || (lastResult(ping, 0) != nil && errIs(lastResult(ping, 0), jsonrpc2.ErrMethodNotFound))
 //@   loop 1: invariant @counter-is-misses local(consecutiveFailures) == misses && 0 <= misses && misses < failureThreshold
 //@   loop 1: invariant @not-closed calls(closeSession) == 0 && calls(tickerStop) == 0
+//@   loop 1: invariant @still-supported calls(ping) == 0 || lastResult(ping, 0) == nil || !errIs(lastResult(ping, 0), jsonrpc2.ErrMethodNotFound)
 
 // The cancel function is published before the goroutine starts and the threshold is normalised to at least 1.
 //@ func startKeepalive [C13]
